@@ -16,7 +16,13 @@ FKinds == {[k |-> "tuple", tys |-> <<"A", "B">>, fign |-> <<TRUE, FALSE>>],
            [k |-> "tuple", tys |-> <<"B", "A", "A">>, fign |-> <<TRUE, TRUE, FALSE>>]}
           \cup (IF AllowNamed THEN {[k |-> "named", tys |-> <<"A", "A">>, fign |-> <<TRUE, FALSE>>]} ELSE {})
 NoFign(n) == [j \in 1..n |-> FALSE]
-Init == vs = <<>> /\ generic \in BOOLEAN /\ forms \in FormSets \cup {{}}
+\* enums wider than MaxVariants in which two variants with the SAME field types are separated by another one (their
+\* shared TryFrom impl must be found whatever lies between them)
+W(k, tys) == [k |-> k, tys |-> tys, ign |-> FALSE, fign |-> NoFign(Len(tys))]
+WideEnums == {<<W("tuple", <<"A">>), W("tuple", <<"B">>), W("tuple", <<"A">>)>>,
+              <<W("unit", <<>>), W("tuple", <<"A">>), W("tuple", <<>>)>>,
+              <<W("tuple", <<"A", "B">>), W("tuple", <<"A">>), W("tuple", <<"A", "B">>), W("tuple", <<"B">>)>>}
+Init == vs \in {<<>>} \cup WideEnums /\ generic \in BOOLEAN /\ forms \in FormSets \cup {{}}
 Add == /\ Len(vs) < MaxVariants
        /\ \/ \E kd \in Kinds, ig \in BOOLEAN :
                 vs' = Append(vs, [k |-> kd.k, tys |-> kd.tys, ign |-> ig, fign |-> NoFign(Len(kd.tys))])
